@@ -9,8 +9,48 @@ fn parse_list<T: std::str::FromStr>(s: &str) -> Vec<T> where T::Err: std::fmt::D
   s.split(',').map(|x| x.trim().parse::<T>().unwrap()).collect()
 }
 
+fn eval(a: &[String]) -> String {
+  use tyme4rs::tyme::Tyme;
+  use tyme4rs::tyme::solar::*;
+  use tyme4rs::tyme::jd::JulianDay;
+  let v: Vec<i64> = a[1..].iter().map(|x| x.parse::<i64>().unwrap()).collect();
+  let day_of = |o: i64| JulianDay::from_julian_day(o as f64 - 0.5).get_solar_day();
+  match a[0].as_str() {
+    "st_next" => {
+      let t = SolarTime::from_ymd_hms(v[0] as isize, v[1] as usize, v[2] as usize, v[3] as usize, v[4] as usize, v[5] as usize);
+      let u = t.next(v[6] as isize);
+      format!("{} {} {} {}", u.get_solar_day().subtract(t.get_solar_day()), u.get_hour(), u.get_minute(), u.get_second())
+    }
+    "st_subtract" => {
+      let x = SolarTime::from_ymd_hms(v[0] as isize, v[1] as usize, v[2] as usize, v[3] as usize, v[4] as usize, v[5] as usize);
+      let y = SolarTime::from_ymd_hms(v[6] as isize, v[7] as usize, v[8] as usize, v[9] as usize, v[10] as usize, v[11] as usize);
+      format!("{}", x.subtract(y))
+    }
+    "st_subtract_ord" => {
+      let (d1, d2) = (day_of(v[0]), day_of(v[4]));
+      let x = SolarTime::from_ymd_hms(d1.get_year(), d1.get_month(), d1.get_day(), v[1] as usize, v[2] as usize, v[3] as usize);
+      let y = SolarTime::from_ymd_hms(d2.get_year(), d2.get_month(), d2.get_day(), v[5] as usize, v[6] as usize, v[7] as usize);
+      format!("{}", x.subtract(y))
+    }
+    "index_of" => format!("{}", tyme4rs::tyme::AbstractCulture::new().index_of(v[0] as isize, v[1] as usize)),
+    "month_next" => { let r = SolarMonth::from_ym(v[0] as isize, v[1] as usize).next(v[2] as isize); format!("{} {}", r.get_year(), r.get_month()) }
+    "season_next" => { let r = SolarSeason::from_index(v[0] as isize, v[1] as usize).next(v[2] as isize); format!("{} {}", r.get_year(), r.get_index()) }
+    "half_next" => { let r = SolarHalfYear::from_index(v[0] as isize, v[1] as usize).next(v[2] as isize); format!("{} {}", r.get_year(), r.get_index()) }
+    _ => "UNKNOWN".to_string(),
+  }
+}
+
 fn main() {
   let a: Vec<String> = std::env::args().collect();
+  if a.len() > 2 && a[1] == "--eval" {
+    let args: Vec<String> = a[2..].to_vec();
+    let prev = panic::take_hook();
+    panic::set_hook(Box::new(|_| {}));
+    let r = panic::catch_unwind(move || eval(&args));
+    panic::set_hook(prev);
+    match r { Ok(s) => println!("{}", s), Err(_) => println!("PANIC") }
+    return;
+  }
   if a.len() < 4 { eprintln!("usage: replay <body> <params> <values>"); std::process::exit(2); }
   let body = tyme_verif_harness::registry().into_iter().find(|(n, _)| *n == a[1]);
   let body = match body { Some((_, b)) => b, None => { eprintln!("unknown body {}", a[1]); std::process::exit(2); } };
